@@ -496,8 +496,8 @@ def gen_fingering(shard):
 # clause: chord_fingering
 # ---------------------------------------------------------------------------------------
 ROOTS = ["C", "C#", "D", "Eb", "E", "F", "F#", "G", "Ab", "A", "Bb", "B"]
-CHORDS_Q = ["", "m", "7", "m7", "M7", "dim", "aug", "sus4"]
-CHORDS_T = CHORDS_Q + ["6", "m6", "9", "dim7", "sus2", "5", "m7b5", "13"]
+CHORDS_Q = ["", "m", "7", "m7", "M7", "dim", "aug", "sus4", "5", "6"]
+CHORDS_T = CHORDS_Q + ["m6", "9", "dim7", "sus2", "m7b5", "13"]
 
 
 def run_chord_fingering(case):
